@@ -6,6 +6,7 @@ import (
 	"fmt"
 	"reflect"
 	"runtime"
+	"sync"
 
 	structform "github.com/elastic/go-structform"
 	"github.com/elastic/go-structform/gotype"
@@ -381,3 +382,274 @@ func runUnfoldX(c *Case, tr *Trace) {
 }
 
 func (v VD) normed() VD { v.norm(); return v }
+
+// ---------------------------------------------------------------- kind "alias" (C15)
+
+func init() { extraKinds["alias"] = runAlias }
+
+// retainVisitor keeps the strings it is handed BY VALUE without copying
+// them (as a consumer is entitled to) next to an independent copy, and
+// forwards everything to the unfolder.
+type retainVisitor struct {
+	structform.ExtVisitor
+	kept   []string
+	copies []string
+}
+
+func (r *retainVisitor) OnString(s string) error {
+	r.kept = append(r.kept, s)
+	r.copies = append(r.copies, string(append([]byte(nil), s...)))
+	return r.ExtVisitor.OnString(s)
+}
+func (r *retainVisitor) OnKey(s string) error {
+	r.kept = append(r.kept, s)
+	r.copies = append(r.copies, string(append([]byte(nil), s...)))
+	return r.ExtVisitor.OnKey(s)
+}
+
+// runAlias parses c.Doc in chunks (each chunk a fresh buffer that is
+// overwritten right after its Write) through the real parser into an
+// unfolder, takes a snapshot of the target, then parses the follow-up
+// document sub.follow through the SAME parser and unfolder into a second
+// target, forces a garbage collection, and projects the first target again.
+// sub.target: ifc | struct | map ; sub.gc: run a GC at every event.
+func runAlias(c *Case, tr *Trace) {
+	api := formats[c.Fmt]
+	doc := intsToBytes(c.Doc)
+	var follow []byte
+	{
+		b, _ := json.Marshal(c.Sub["follow"])
+		var f []int
+		json.Unmarshal(b, &f)
+		follow = intsToBytes(f)
+	}
+	target, _ := c.Sub["target"].(string)
+	gcEvery, _ := c.Sub["gc"].(bool)
+	type rec struct {
+		A string                 `struct:"a"`
+		B string                 `struct:"b"`
+		S []string               `struct:"s"`
+		M map[string]string      `struct:"m"`
+		I interface{}            `struct:"i"`
+		N map[string]interface{} `struct:"n"`
+		K []interface{}          `struct:"k"`
+	}
+	newTarget := func() interface{} {
+		switch target {
+		case "struct":
+			return &rec{}
+		case "map":
+			return &map[string]interface{}{}
+		case "mapstr":
+			return &map[string]string{}
+		}
+		var x interface{}
+		return &x
+	}
+	res := map[string]interface{}{"err": "", "err2": "", "kept_ok": true, "nkept": 0}
+	tr.Extra = res
+	un, err := gotype.NewUnfolder(nil)
+	if err != nil {
+		res["err"] = err.Error()
+		return
+	}
+	if kc, ok := c.Sub["keycache"].(float64); ok {
+		un.EnableKeyCache(int(kc))
+	}
+	rv := &retainVisitor{ExtVisitor: structform.EnsureExtVisitor(un)}
+	var vis structform.Visitor = rv
+	if gcEvery {
+		vis = &gcVisitor{rv}
+	}
+	p := api.newParser(vis)
+	feed := func(data []byte, cuts []int, to interface{}) error {
+		if err := un.SetTarget(to); err != nil {
+			return err
+		}
+		for _, ch := range chunksOf(data, cuts) {
+			buf := append([]byte(nil), ch...)
+			_, err := p.Write(buf)
+			for i := range buf {
+				buf[i] = 0xAA // the caller reuses its buffer
+			}
+			if err != nil {
+				return err
+			}
+		}
+		if f, has := p.(interface{ VerifFinalize() error }); has {
+			return f.VerifFinalize()
+		}
+		return nil
+	}
+	t1 := newTarget()
+	if err := feed(doc, c.Cuts, t1); err != nil {
+		res["err"] = err.Error()
+	}
+	snap := describe(reflect.ValueOf(t1).Elem())
+	t2 := newTarget()
+	if err := feed(follow, []int{len(follow) / 2}, t2); err != nil {
+		res["err2"] = err.Error()
+	}
+	runtime.GC()
+	after := describe(reflect.ValueOf(t1).Elem())
+	res["snap"], res["after"] = snap, after
+	ok := true
+	for i := range rv.kept {
+		if rv.kept[i] != rv.copies[i] {
+			ok = false
+		}
+	}
+	res["kept_ok"], res["nkept"] = ok, len(rv.kept)
+	runtime.KeepAlive(t2)
+}
+
+// gcVisitor forces a garbage collection before every event.
+type gcVisitor struct{ *retainVisitor }
+
+func (g *gcVisitor) OnString(s string) error { runtime.GC(); return g.retainVisitor.OnString(s) }
+func (g *gcVisitor) OnKey(s string) error    { runtime.GC(); return g.retainVisitor.OnKey(s) }
+func (g *gcVisitor) OnStringRef(b []byte) error {
+	runtime.GC()
+	return g.retainVisitor.OnStringRef(b)
+}
+func (g *gcVisitor) OnKeyRef(b []byte) error { runtime.GC(); return g.retainVisitor.OnKeyRef(b) }
+func (g *gcVisitor) OnObjectStart(n int, t structform.BaseType) error {
+	runtime.GC()
+	return g.retainVisitor.OnObjectStart(n, t)
+}
+func (g *gcVisitor) OnArrayStart(n int, t structform.BaseType) error {
+	runtime.GC()
+	return g.retainVisitor.OnArrayStart(n, t)
+}
+func (g *gcVisitor) OnObjectFinished() error { runtime.GC(); return g.retainVisitor.OnObjectFinished() }
+func (g *gcVisitor) OnArrayFinished() error  { runtime.GC(); return g.retainVisitor.OnArrayFinished() }
+func (g *gcVisitor) OnInt64(i int64) error   { runtime.GC(); return g.retainVisitor.OnInt64(i) }
+func (g *gcVisitor) OnUint8(i uint8) error   { runtime.GC(); return g.retainVisitor.OnUint8(i) }
+func (g *gcVisitor) OnInt8(i int8) error     { runtime.GC(); return g.retainVisitor.OnInt8(i) }
+
+// ---------------------------------------------------------------- kind "conc" (C19)
+
+func init() { extraKinds["conc"] = runConc }
+
+type concT struct {
+	A  string             `struct:"a"`
+	B  int                `struct:"b,omitempty"`
+	C  []string           `struct:"c"`
+	D  map[string]int     `struct:"d"`
+	E  *concInner         `struct:"e"`
+	F  interface{}        `struct:"f"`
+	In concInner          `struct:",inline"`
+	G  map[string]concIn2 `struct:"g"`
+}
+type concInner struct {
+	X int     `struct:"x"`
+	Y float64 `struct:"y"`
+}
+type concIn2 struct{ Z []int }
+
+// runConc runs sub.n goroutines; each runs sub.rounds rounds of
+// fold -> encode -> parse -> unfold on its OWN new instances over SHARED input
+// values and shared Go types (so first-use compilation of folders/unfolders
+// recurs every round), and compares every result with the sequential one.
+// Registry identities of all instances are recorded (ownership).
+func runConc(c *Case, tr *Trace) {
+	n := int(c.Sub["n"].(float64))
+	rounds := int(c.Sub["rounds"].(float64))
+	shared := []interface{}{
+		concT{A: "a", B: 1, C: []string{"x", "y"}, D: map[string]int{"k": 1}, E: &concInner{1, 2.5}, F: []interface{}{1, "s"}, In: concInner{3, 4}, G: map[string]concIn2{"g": {[]int{1, 2}}}},
+		map[string]interface{}{"m": []interface{}{1.5, nil, true}, "n": map[string]interface{}{"o": "p"}},
+		[]concInner{{1, 1}, {2, 2}},
+		&concT{A: "ptr"},
+	}
+	fmts := []string{"json", "ubjson", "cborl"}
+	var aliveMu sync.Mutex
+	var alive []interface{} // instances stay reachable, so registry addresses cannot be reused
+	pipeline := func(v interface{}, f string) (VD, uintptr, uintptr, string) {
+		api := formats[f]
+		sk := &sink{}
+		it, err := gotype.NewIterator(api.newVisitor(sk, Opts{}))
+		if err != nil {
+			return VD{}.normed(), 0, 0, err.Error()
+		}
+		if err := it.Fold(v); err != nil {
+			return VD{}.normed(), 0, 0, "fold: " + err.Error()
+		}
+		out := reflect.New(reflect.TypeOf(v))
+		if reflect.TypeOf(v).Kind() == reflect.Ptr {
+			out = reflect.New(reflect.TypeOf(v).Elem())
+		}
+		un, err := gotype.NewUnfolder(out.Interface())
+		if err != nil {
+			return VD{}.normed(), 0, 0, "unfolder: " + err.Error()
+		}
+		if err := api.parse(sk.all, un); err != nil {
+			return VD{}.normed(), 0, 0, "parse: " + err.Error()
+		}
+		aliveMu.Lock()
+		alive = append(alive, it, un)
+		aliveMu.Unlock()
+		return describe(out.Elem()), it.VerifRegistry(), un.VerifRegistry(), ""
+	}
+	// sequential reference results
+	type key struct{ v, f int }
+	want := map[key]VD{}
+	for vi, v := range shared {
+		for fi, f := range fmts {
+			d, _, _, e := pipeline(v, f)
+			if e != "" {
+				tr.Extra = map[string]interface{}{"infra": "sequential pipeline failed: " + e}
+				return
+			}
+			want[key{vi, fi}] = d
+		}
+	}
+	var mu sync.Mutex
+	mismatches, errs := 0, 0
+	regs := map[uintptr]int{} // registry identity -> number of instances using it at the same time
+	dupl := 0
+	global := gotype.VerifGlobalFoldRegistry()
+	usesGlobal := false
+	var wg sync.WaitGroup
+	start := make(chan struct{})
+	for g := 0; g < n; g++ {
+		wg.Add(1)
+		go func(g int) {
+			defer wg.Done()
+			<-start
+			for r := 0; r < rounds; r++ {
+				vi, fi := (g+r)%len(shared), (g+2*r)%len(fmts)
+				d, ri, ru, e := pipeline(shared[vi], fmts[fi])
+				mu.Lock()
+				if e != "" {
+					errs++
+				} else if !equalVD(&d, ptrVD(want[key{vi, fi}])) {
+					mismatches++
+				}
+				for _, id := range []uintptr{ri, ru} {
+					if id == 0 {
+						continue
+					}
+					regs[id]++
+					if id == global {
+						usesGlobal = true
+					}
+				}
+				mu.Unlock()
+			}
+		}(g)
+	}
+	close(start)
+	wg.Wait()
+	// every pipeline creates new instances and all of them are still alive: a
+	// registry identity seen more than once is a registry shared between instances
+	runtime.KeepAlive(alive)
+	for _, cnt := range regs {
+		if cnt > 1 {
+			dupl++
+		}
+	}
+	tr.Extra = map[string]interface{}{"infra": "", "pipelines": n * rounds, "mismatches": mismatches, "errors": errs,
+		"registries": len(regs), "uses_global": usesGlobal, "reused_ids": dupl}
+}
+
+func ptrVD(v VD) *VD { return &v }
